@@ -149,8 +149,15 @@ def run(ctx):
     thorough = ctx.tier == "thorough"
     if ctx.replay:
         recs = load_replay(ctx.replay)
-        if "e" in recs[0]["case"]:
-            raise Broken("this artefact is a driver-log prefix (trace validation); validate it with spec/trace/OJsonTrace.tla")
+        if "e" in recs[0]["case"]:          # a driver-log prefix rejected by trace validation: validate it again
+            log = os.path.join(ctx.tmp, "replay-trace.ndjson")
+            with open(log, "w") as f:
+                for r in recs:
+                    f.write(pyjson.dumps(r["case"]) + "\n")
+            n = validate_log(ctx, log)
+            if n is not None:
+                print("trace accepted: %d events" % n)
+            return finish_keeping_evidence(ctx)
         behaviours = [r["spec"] for r in recs]
         cases = [r["case"] for r in recs]
         rb, per_gen = None, {}
@@ -250,26 +257,33 @@ def trace_validation(ctx, lib, env, thorough):
     if rc != 0:
         ctx.mismatch("driver:crash", "the random driver crashed (rc=%d): %s" % (rc, out[-1500:]), None)
         return {}
+    res = validate_log(ctx, log)
+    if res is None:
+        return {}
+    return {"events": res, "traces": n_hist}
+
+
+def validate_log(ctx, log):
+    """OJsonTrace on one ndjson driver log; returns the number of events if all were accepted, else records the rejection"""
+    import re
     events = sum(1 for _ in open(log))
     r = ctx.tlc("trace/OJsonTrace.tla", "trace/OJsonTrace.cfg", workers=1, env={"TRACE": log}, deadlock=False,
                 timeout=3000, count=False)
     m = None
-    import re
     for m in re.finditer(r'"TRACE-ACCEPTED", (\d+)', r.out):
         pass
     accepted = int(m.group(1)) if m else -1
     if r.rc == 0 and accepted == events:
-        return {"events": events, "traces": n_hist}
-    # rejected: report the event the spec could not follow
-    m2 = None
-    for m2 in re.finditer(r'"TRACE-STUCK", (\d+)', r.out):
-        pass
-    stuck = int(m2.group(1)) if m2 else accepted + 1
+        return events
+    if accepted < 0:
+        raise Broken("trace validation failed without an acceptance count (rc=%s):\n%s" % (r.rc, r.out[-3000:]))
+    stuck = accepted + 1
     lines = open(log).read().splitlines()
     if 0 < stuck <= len(lines):
         ev = pyjson.loads(lines[stuck - 1])
-        start = max(k for k in range(stuck) if pyjson.loads(lines[k])["e"] == "reset") if stuck > 0 else 0
+        start = max(k for k in range(stuck) if pyjson.loads(lines[k])["e"] == "reset")
         ctx.mismatch("trace:%s" % ev["e"], "OJsonTrace rejects event %d of the driver log: %s" % (stuck, lines[stuck - 1][:600]),
-                     [{"case": pyjson.loads(l), "spec": "driver log prefix up to the rejected event (validate with spec/trace/OJsonTrace.tla, TRACE=<this file's case fields>)"} for l in lines[start:stuck]])
-        return {"events": stuck - 1, "traces": 0}
+                     [{"case": pyjson.loads(l), "spec": "driver log prefix up to the rejected event (re-validated by ./check C25 --replay)"}
+                      for l in lines[start:stuck]])
+        return None
     raise Broken("trace validation failed without a located event (rc=%s):\n%s" % (r.rc, r.out[-3000:]))
